@@ -69,6 +69,13 @@ class Scenario:
         t1 = self.trees[self.disks[0]]
         if rng.random() < 0.5 and b'content.tmp' not in set(s for s, k in t1) and not any(s.startswith(b'content.tmp/') for s, k in t1):
             t1.append((b'content.tmp', 'f'))
+        # user files whose names only LOOK like the tool's own files: they must enter the array (elem.c compares the whole path
+        # with <content>, <content>.tmp and <content>.lock)
+        have = set(s for s, k in t1)
+        for nm in rng.sample([b'content.tmp.bak', b'content.tmp2', b'content.locked-2026', b'content.lock~', b'content.tmpx', b'content.lock.old',
+                              b'content2', b'contents', b'content.bak', b'xcontent', b'content.tm', b'content.loc'], rng.choice([2, 3, 4])):
+            if nm not in have:
+                t1.append((nm, 'f'))
         # hard links (a second name of a regular file of the same disk) and special files (fifo)
         self.hard = {}
         for d in self.disks:
@@ -87,6 +94,12 @@ class Scenario:
                 names.add(nm)
                 t.append((nm, 'h'))
                 hd[nm] = target
+            for _ in range(rng.choice([1, 2, 3])):
+                nm = rng.choice(parents) + rng.choice([b'sl', b'lnk.c', b'.ln', b'l k', b'tmp.l']) + rng.choice([b'', b'2'])
+                if nm in names or any(x.startswith(nm + b'/') for x in names):
+                    continue
+                names.add(nm)
+                t.append((nm, 'l'))
             for _ in range(rng.choice([0, 0, 1])):
                 nm = rng.choice(parents) + rng.choice([b'fifo', b'pipe.c', b'.sock', b'tmp'])
                 if nm in names or any(x.startswith(nm + b'/') for x in names):
@@ -184,6 +197,14 @@ class Scenario:
         return [('i' if i else 'e') + hx(t) for i, t in self.rules]
 
 
+def symlink_target(sc, d, sub, n):
+    """what a generated symlink points to: nothing that exists (dangling), or a regular file of the same disk (valid)"""
+    regular = [s for s, k in sc.trees[d] if k == 'f' and not s.startswith(b'content')]
+    if n % 2 == 0 or not regular:
+        return b'target'
+    return b'../' * sub.count(b'/') + regular[n % len(regular)]
+
+
 def materialize(root, sc, only=None):
     """create the trees; files hold a few bytes (one in eight is empty)"""
     for d in sc.disks:
@@ -199,7 +220,7 @@ def materialize(root, sc, only=None):
                 os.makedirs(os.path.dirname(p), exist_ok=True)
                 if k == 'l':
                     if not os.path.lexists(p):
-                        os.symlink(b'target', p)
+                        os.symlink(symlink_target(sc, d, sub, n), p)
                 elif k == 's':
                     if not os.path.lexists(p):
                         os.mkfifo(p)
